@@ -68,6 +68,10 @@ def _step(im, op):
         elif t[0] == 'P.full':
             im.env, im.mode, im.cur = None, None, []
             hands = Hands(*[parse_cards(x) for x in t[3:7]])
+            if sum(len(x) for x in t[3:7]) % 2 == 0:
+                # every other deal reaches the game the way a board file does: through the library's own PBN text
+                # (Hands.to_pbn -> Hands.convert_pbn); for a correct library these are fresh, equal hands
+                hands = Hands.convert_pbn(hands.to_pbn())
             im.env = PlayingPhaseWithHands(contract(t[1], t[2]), hands)
             im.mode = 'full'
             return 'NEW ' + im.line()
@@ -152,6 +156,14 @@ def gen_board(ctx, rng, fault_p=0.0, revoke_p=0.3, mode='full', me=None, set_dum
     trump = b % 5
     decl = rng.randrange(4)
     hands = random_deal(rng, rng.choice([None, None, 'voids']))
+    # duplicate bridge: the SAME deal comes up again (a second table, a replayed board) — state that the library carried
+    # over from the first time (caches, shared sets) shows only then
+    prev = getattr(ctx, '_last_deal', None)
+    if prev is not None and mode == 'full' and rng.random() < 0.3:
+        hands = [list(h) for h in prev]
+        ctx.count('deal_replayed')
+    if mode == 'full':
+        ctx._last_deal = [list(h) for h in hands]
     dummy = (decl + 2) % 4
     live = [list(h) for h in hands]
     if mode == 'full':
